@@ -46,6 +46,7 @@ pub fn gen_sql_case(prop: &str, verif_seed: u64, idx: u64) -> SqlReplay {
     let cfg = pick_cfg(&mut rng);
     let profile: Profile = props::profile_for(prop, &mut rng);
     let guards = profile.guards.clone();
+    let cfg = if profile.small_cache { Cfg { cache: 24 + (seed % 9) as usize, page: 4096, ..cfg } } else { cfg };
     let events = Gen::new(rng.next(), profile).generate(pick_cfg);
     let engine = match props::prop(prop).map(|p| p.engine) {
         Some(props::Engine::Crash) => "E2-crashsim",
